@@ -1,6 +1,7 @@
 package main
 
 import (
+	"strconv"
 	"bytes"
 	"fmt"
 	"go/ast"
@@ -826,6 +827,12 @@ func (V *Verifier) verifyFunctionOnce(fn *ssa.Function, lockMode bool) *FnResult
 		var walk func(qe ast.Expr, depth int)
 		walk = func(qe ast.Expr, depth int) {
 			ast.Inspect(qe, func(n ast.Node) bool {
+				if bl, ok := n.(*ast.BasicLit); ok && bl.Kind == token.STRING {
+					// string literals of the function's own clauses are instantiation candidates (map keys such as "expires")
+					if sv, err := strconv.Unquote(bl.Value); err == nil {
+						ex.addCand(SStr, strLit(sv))
+					}
+				}
 				if ce, ok := n.(*ast.CallExpr); ok {
 					if id, ok := ce.Fun.(*ast.Ident); ok {
 						if id.Name == "forall" && len(ce.Args) == 3 {
